@@ -90,6 +90,7 @@ def run_traces(ctx, scenario, shards, games, plies, with_sum=False, label=None, 
         if with_sum:
             args.append("--sum")
         summ = harness(args, timeout=timeout)
+        summ["args"] = [str(a) for a in args]
         r = tlc.run("Trace_Engine", "Trace_Engine.cfg", env={"TRACE": out}, workers=1, want_records=True, stack="64m",
                     heap="1500m", young="300m", timeout=timeout)
         return i, out, summ, r
@@ -124,6 +125,7 @@ def run_traces(ctx, scenario, shards, games, plies, with_sum=False, label=None, 
                 x["history_tail"] = hist
                 x["trace_seed"] = ctx.seed * 1000 + i
                 x["scenario"] = scenario
+                x["harness_args"] = summ["args"]
                 bad.append(x)
         if not ctx.samples and summ["events"] > 3:
             with open(out) as f:
@@ -144,7 +146,7 @@ def absorb_bad(ctx, bad):
             n += 1
             sig = {"ev": b.get("ev"), "diff": ",".join(sorted(b.get("diff", [])))}
             ctx.violation(b["why"], {"binding": "B2 trace validation (Trace_Engine)", "event_line": b["bad"], "event": b.get("ev"), "differs": b.get("diff"),
-                                     "logged_vs_model": b.get("x"), "scenario": b.get("scenario"), "trace_seed": b.get("trace_seed"),
+                                     "logged_vs_model": b.get("x"), "scenario": b.get("scenario"), "trace_seed": b.get("trace_seed"), "harness_args": b.get("harness_args"),
                                      "history_tail": b.get("history_tail")}, sig=sig)
         else:
             k = "%s:%s" % (b.get("ev"), ",".join(sorted(b.get("diff", []))))
@@ -225,6 +227,14 @@ def c12(ctx):
     absorb_bad(ctx, bad)
     bad2, ev2, h2, sk2 = run_traces(ctx, "clock", 4 if quick else 12, 2 if quick else 10, 250, with_sum=True)
     absorb_bad(ctx, bad2)
+    # B1: the board after EVERY legal move of every oracle state (1-ply neighbourhood of the catalogue, both colours)
+    bo = ctx.path("boards_after_moves.ndjson")
+    summ1 = engines.oracle_replay(ctx, seed_records(load_seeds(), both_colours=True), 1 if quick else 2, ["C12"], label="positions", boards_out=bo)
+    ctx.require_tags(summ1["tags"], ["promotion-captures-home-rook", "home-rook-captured", "ep:w", "ep:b", "O-O:w", "O-O-O:b"])
+    b4, sk4, tot4 = engines.validate_records(ctx, bo, shards=4 if quick else 8, workers=4, label="boards")
+    engines.absorb_records(ctx, b4, sk4, tot4)
+    ctx.extra["boards_after_oracle_moves_validated"] = tot4
+    ctx.evaluations += tot4
     out = ctx.path("transient.ndjson")
     seeds_path = write_ndjson(ctx.path("tseeds.ndjson"), seed_records(load_seeds()))
     summ = harness(["record-transient", out, "--seed", ctx.seed, "--games", 10 if quick else 80, "--plies", 80, "--one-in", 40 if quick else 25,
